@@ -635,7 +635,7 @@ def selfcheck():
 
 
 SUBCHECKS = [
-    SubCheck('build_execute', strategy_build, run_script, quick=2500, thorough=60000, describe='scripts without replace_task/insert_context operations'),
-    SubCheck('replace_context', strategy_replace, run_script, quick=2500, thorough=60000, describe='scripts with replace_task and insert_context operations'),
+    SubCheck('build_execute', strategy_build, run_script, quick=2500, thorough=37500, describe='scripts without replace_task/insert_context operations'),
+    SubCheck('replace_context', strategy_replace, run_script, quick=2500, thorough=37500, describe='scripts with replace_task and insert_context operations'),
     SubCheck('distributed', strategy_replace, run_script_distributed, quick=0, thorough=150, max_shards=1, describe='thorough only: LocalCluster branch of local_dask.run (about 0.5 s per script)'),
 ]
